@@ -109,6 +109,15 @@ def convolveVar : List K → List K → K
   | e :: es, r :: rs => (e * r) * (e * r) + convolveVar es rs
   | _, _ => 0
 
+/-- the convolved flux of one aperture as `_convolve_model_dir_1/_2` compute it: re-bin the filter onto
+    the SED's frequency grid, then `np.sum(s.flux * f.response)` -/
+def broadband (flt : List (K × K)) (nus : List K) (flux : List K) : K :=
+  convolve flux (rebin flt nus)
+
+/-- the square of the convolved error: `np.sum((s.error * f.response) ** 2)` with the same re-binned filter -/
+def broadbandVar (flt : List (K × K)) (nus : List K) (err : List K) : K :=
+  convolveVar err (rebin flt nus)
+
 /-- spec: integral of the piecewise-linear interpolant of increasing nodes from the first node to `t` -/
 def cumInt : List (K × K) → K → K
   | p0 :: p1 :: rest => fun t =>
